@@ -215,10 +215,12 @@ func opsBSI(cfg bsiCfg, quick bool) []opB {
 		w.M[100], w.M[102] = bigOf(3), bigOf(1<<40)
 		return "", nil
 	})
-	// Increment / Add: only when every stored value is non-negative and the result stays in range
+	// Increment / Add: only on non-negative values whose result stays in range (other columns may hold anything)
 	incOK := func(w *WB, cols []uint64) bool {
-		if !w.M.allNonNegative() {
-			return false
+		for _, c := range cols {
+			if v, ok := w.M[c]; ok && v.Sign() < 0 {
+				return false // incrementing a negative value is outside the property's domain; negative bystanders are not
+			}
 		}
 		for _, c := range cols {
 			v, ok := w.M[c]
@@ -271,6 +273,27 @@ func opsBSI(cfg bsiCfg, quick bool) []opB {
 		}
 		return "", nil
 	})
+	mk(fmt.Sprintf("Add({%d: +8}) (other columns untouched)", cfg.Cols[0]), func(w *WB) (string, *ev.Fail) {
+		c0 := cfg.Cols[0]
+		cur, ok := w.M[c0]
+		if !ok {
+			cur = bigOf(0)
+		}
+		sum := new(big.Int).Add(cur, bigOf(8))
+		if cur.Sign() < 0 || !w.inRange(sum) || !sum.IsInt64() || sum.Cmp(bigOf(math.MaxInt64/2)) > 0 {
+			return "skip", nil
+		}
+		w.B.Add(w.other(map[uint64]int64{c0: 8}))
+		w.M[c0] = sum
+		return "", nil
+	})
+	mk("ClearValues(own existence bitmap)", func(w *WB) (string, *ev.Fail) {
+		w.B.ClearOwn()
+		for c := range w.M {
+			delete(w.M, c)
+		}
+		return "", nil
+	})
 	mk("RunOptimize()", func(w *WB) (string, *ev.Fail) { w.B.RunOptimize(); return "", nil })
 	copyOp := func(name string, f func(w *WB) (bsiAPI, *ev.Fail)) {
 		mk(name, func(w *WB) (string, *ev.Fail) {
@@ -297,6 +320,24 @@ func opsBSI(cfg bsiCfg, quick bool) []opB {
 		}
 		return n, nil
 	})
+	for kind, kname := range []string{"", "a fresh full-range index", "a used default index"} {
+		kind, kname := kind, kname
+		if kind == 0 {
+			continue
+		}
+		copyOp("b = ("+kname+").Unmarshal(Marshal(b))", func(w *WB) (bsiAPI, *ev.Fail) {
+			for _, v := range w.M {
+				if !v.IsInt64() {
+					return nil, nil // the receivers are created for the int64 range
+				}
+			}
+			n, err := w.B.MarshalInto(kind)
+			if err != nil {
+				return nil, fail("UnmarshalBinary", "error", "Marshal/UnmarshalBinary into %s failed: %v", kname, err)
+			}
+			return n, nil
+		})
+	}
 	if cfg.Wide {
 		copyOp("b = ReadFrom(WriteTo(b))", func(w *WB) (bsiAPI, *ev.Fail) {
 			n, wn, rn, err, ok := w.B.StreamRoundTrip()
@@ -443,7 +484,14 @@ func runC19(c *Ctx) {
 		b.Deadline = c.Budget(60+10*i, 1700+30*i)
 		scs = append(scs, b)
 	}
-	c.R.Assume("values stay within the range the index was created or auto-sized for; Increment/Add are applied only when every stored value is non-negative (the property's stated domain)")
+	c.R.Assume("values stay within the range the index was created or auto-sized for; Increment/Add are applied only to non-negative values (the property's stated domain); columns they do not touch may hold negative values")
+	if c.Replay != nil && c.Replay.Scenario == "aliased arguments" {
+		replayCaged(c, "C19alias")
+		return
+	}
 	runScenarios(c, scs...)
+	if c.Replay == nil {
+		runCagedFamily(c, "C19alias", "aliased arguments", "aliased arguments: the index itself as addend, its own existence bitmap as found set (subprocess cage, 20 s silence watchdog)")
+	}
 	c.R.SetExtra("accessor_evaluations", atomic.LoadInt64(&evals))
 }
